@@ -371,11 +371,20 @@ def run_harness(exe, lines, timeout=900, env=None):
     e.setdefault("UBSAN_OPTIONS", "print_stacktrace=1")
     if env:
         e.update(env)
+    # libnano writes fit logs into the temporary directory: keep them out of /tmp (a private directory, removed afterwards)
+    own_tmp = None
+    if not (env and "TMPDIR" in env):
+        own_tmp = os.path.join(CACHE, f"tmp-{os.getpid()}")
+        os.makedirs(own_tmp, exist_ok=True)
+        e["TMPDIR"] = own_tmp
     try:
         p = subprocess.run([exe], input="\n".join(lines) + "\n", capture_output=True, text=True, timeout=timeout, env=e)
         rc, out, err = p.returncode, p.stdout, p.stderr
     except subprocess.TimeoutExpired as ex:
         rc, out, err = -999, (ex.stdout or b"").decode() if isinstance(ex.stdout, bytes) else (ex.stdout or ""), "timeout"
+    finally:
+        if own_tmp:
+            shutil.rmtree(own_tmp, ignore_errors=True)
     aug, res = [], []
     for l in out.splitlines():
         if l.startswith("A "):
